@@ -289,6 +289,8 @@ class Sym:
         return int(self._concretize())
 
     def __int__(self):
+        if not self.isint and self._val() is None:
+            return int(self.__trunc__())
         return int(self._concretize())
 
     def __hash__(self):
@@ -297,12 +299,35 @@ class Sym:
     def __float__(self):
         return float(self._concretize())
 
-    def __round__(self, nd=None):
+    def __floor__(self):
+        if self._val() is not None:
+            return math.floor(self._val())
         if self.isint:
             return self
-        raise HarnessError("round() of a symbolic real")
+        return _engine().floor_lin(self)
 
-    __trunc__ = __floor__ = __ceil__ = lambda self: self.__round__()
+    def __ceil__(self):
+        if self._val() is not None:
+            return math.ceil(self._val())
+        if self.isint:
+            return self
+        return -_engine().floor_lin(-self)
+
+    def __trunc__(self):
+        if self._val() is not None:
+            return math.trunc(self._val())
+        if self.isint:
+            return self
+        return self.__floor__() if self >= 0 else self.__ceil__()
+
+    def __round__(self, nd=None):
+        if nd is not None:
+            raise HarnessError("round(x, ndigits) of a symbolic value")
+        if self._val() is not None:
+            return round(self._val())
+        if self.isint:
+            return self
+        return _round_half_even(self)
 
     def __repr__(self):
         v = self._val()
@@ -315,6 +340,15 @@ class Sym:
         if v is not None:
             return format(v, spec)
         return repr(self)
+
+
+def _round_half_even(x):
+    """Python's round(): nearest integer, ties to the even one."""
+    k = (x + Fr(1, 2)).__floor__()
+    if x + Fr(1, 2) == k:          # exact tie
+        if k % 2 != 0:
+            return k - 1
+    return k
 
 
 def _negate(o):
@@ -385,11 +419,61 @@ class Ratio:
     def __hash__(self):
         raise HarnessError("hash of a symbolic ratio")
 
-    def _unsupported(self, *a):
-        raise HarnessError("arithmetic on a symbolic ratio (non-linear)")
+    def _const(self, o):
+        n = _num(o)
+        if n is None and isinstance(o, Sym) and o._val() is not None:
+            n = o._val()
+        if n is None or isinstance(n, float):
+            raise HarnessError("arithmetic on a symbolic ratio with a non-constant (non-linear)")
+        return n
 
-    __add__ = __radd__ = __sub__ = __rsub__ = __mul__ = __rmul__ = _unsupported
-    __truediv__ = __rtruediv__ = __float__ = __int__ = __index__ = _unsupported
+    def __add__(self, o):
+        return Ratio(self.num + self.den * self._const(o), self.den)
+
+    __radd__ = __add__
+
+    def __sub__(self, o):
+        return Ratio(self.num - self.den * self._const(o), self.den)
+
+    def __rsub__(self, o):
+        return Ratio(self.den * self._const(o) - self.num, self.den)
+
+    def __neg__(self):
+        return Ratio(-self.num, self.den)
+
+    def __mul__(self, o):
+        c = self._const(o)
+        return Ratio(self.num * c, self.den)
+
+    __rmul__ = __mul__
+
+    def __truediv__(self, o):
+        c = self._const(o)
+        if c == 0:
+            raise ZeroDivisionError("division by zero")
+        return Ratio(self.num * (Fr(1) / c), self.den)
+
+    def __floor__(self):
+        return _engine().floor_ratio(self)
+
+    def __ceil__(self):
+        return -_engine().floor_ratio(-self)
+
+    def __trunc__(self):
+        return self.__floor__() if self >= 0 else self.__ceil__()
+
+    def __int__(self):
+        return int(self.__trunc__())
+
+    def __round__(self, nd=None):
+        if nd is not None:
+            raise HarnessError("round(x, ndigits) of a symbolic value")
+        return _round_half_even(self)
+
+    def _unsupported(self, *a):
+        raise HarnessError("a symbolic ratio reached a place that needs a concrete value")
+
+    __rtruediv__ = __float__ = __index__ = _unsupported
 
 
 # ---------------------------------------------------------------------------
@@ -659,6 +743,18 @@ class ExactQ:
     def __int__(self):
         return int(self.q)
 
+    def __floor__(self):
+        return math.floor(self.q)
+
+    def __ceil__(self):
+        return math.ceil(self.q)
+
+    def __trunc__(self):
+        return math.trunc(self.q)
+
+    def __round__(self, nd=None):
+        return round(self.q) if nd is None else ExactQ(round(self.q, nd))
+
     def __repr__(self):
         return "Q(%s)" % self.q
 
@@ -878,6 +974,33 @@ class Engine:
         qi = self._atom(q.sexpr(), q, True)
         qs = Sym({qi: 1}, 0, True)
         return qs, a - qs * b
+
+    def floor_lin(self, x):
+        """floor of a symbolic real linear form: an integer atom ToInt(x)."""
+        term = z3.ToInt(self.z3_of(x))
+        i = self._atom(term.sexpr(), term, True)
+        return Sym({i: 1}, 0, True)
+
+    def floor_ratio(self, r, limit=200):
+        """floor(num/den), den > 0 on the path, by solver-driven enumeration:
+        pick the value under a model, fork on  v*den <= num < (v+1)*den."""
+        for _ in range(limit):
+            if self.pos < len(self.trail):
+                v = self.trail[self.pos].payload
+                if v is None:
+                    raise HarnessError("non-deterministic re-execution (floor of a ratio)")
+            else:
+                m = self.models[0]
+                v = math.floor(Fr(evalm(r.num, m)) / Fr(evalm(r.den, m)))
+            lo = r.num - r.den * v
+            b = sym_and(lo >= 0, lo - r.den < 0)
+            if isinstance(b, bool):
+                if b:
+                    return v
+                continue
+            if self._decide_payload(b, v):
+                return v
+        raise Inconclusive("floor of a symbolic ratio takes more than %d values on one path" % limit)
 
     # -- solver -----------------------------------------------------------
     def _check(self, extra):
